@@ -303,6 +303,11 @@ pub mod data_encoding {
         // decode into a fresh Vec: any bytes, or an error
         #[verifier::external_body]
         pub fn decode(&self, input: &[u8]) -> (r: Result<Vec<u8>, DecodeError>) { unimplemented!() }
+        // decode_len: the decoded length for an input length, Err for an impossible input length
+        #[verifier::external_body]
+        pub fn decode_len(&self, len: usize) -> (r: Result<usize, DecodeError>)
+            ensures match decode_len_spec(self.kind, len as int) { Some(n) => r == Ok::<usize, DecodeError>(n as usize), None => r is Err }
+        { unimplemented!() }
         // Result<usize, DecodeError> compared with `== Ok(n)` in the source: rule R11 redirects that comparison
         #[verifier::external_body]
         pub fn decode_len_is(&self, len: usize, expect: usize) -> (r: bool)
@@ -335,16 +340,16 @@ pub fn to_ascii_uppercase_bytes(s: &str) -> (r: Vec<u8>) ensures r@.len() == str
 //@rwx R9 *
 //@- \bs\.len\(\)
 //@+ str_byte_len(s)
-//@rw R9 1
+//@rw R9 *
 //@- .decode_mut(s.as_bytes(), &mut bytes)
 //@+ .decode_mut(str_as_bytes(s), &mut bytes)
-//@rw R9 1
+//@rw R9 *
 //@- let input = s.to_ascii_uppercase();
 //@+ let input = to_ascii_uppercase_bytes(s);
-//@rw R9 1
+//@rw R9 *
 //@- let input = input.as_bytes();
 //@+ let input = input.as_slice();
-//@rw R11 1
+//@rw R11 *
 //@- data_encoding::BASE32_NOPAD.decode_len(input.len()) == Ok(bytes.len()),
 //@+ data_encoding::BASE32_NOPAD.decode_len_is(input.len(), bytes.len()),
 //@rwx R1 *
